@@ -381,5 +381,5 @@ def run(ctx):
 
 
 def replay(ctx, rec):
-    print("re-run `./check C13 quick` with VERIF_SEED=%s; failing input: %s" % (rec.get("seed"), rec.get("input")))
-    return False
+    print("re-executing the recorded run of `./check C13 quick` with VERIF_SEED=%s; failing input: %s" % (rec.get("seed"), rec.get("input")))
+    return None
